@@ -1,10 +1,10 @@
 package main
 
 import (
-	"os"
 	"fmt"
 	"go/constant"
 	"go/token"
+	"os"
 	"sort"
 	"strings"
 
